@@ -296,3 +296,19 @@ Proof.
     + intros q q' u v _ _ O Hu Hv. apply sel_In in Hu as [Eu _]. apply sel_In in Hv as [Ev _].
       rewrite (Hhas _ _ Eu), (Hhas _ _ Ev). apply ordXY_before. exact O.
 Qed.
+
+(** ** the "mutex" claim of the source ("if the line intersects this one, the other cannot be
+    intersected") is true for half-open boxes: when the end points lie in diagonally opposite
+    infinite quadrants, the segment meets at most one of the two other parts -- also when it passes
+    exactly through the centre point, which belongs to the top right part only. *)
+Theorem offdiagonal_mutex (a b : pt) (P : extent) (c : pt) :
+  let r1 := (fst c <=? fst a)%Z in let t1 := (snd c <=? snd a)%Z in
+  let r2 := (fst c <=? fst b)%Z in let t2 := (snd c <=? snd b)%Z in
+  r1 <> r2 -> t1 <> t2 ->
+  Meets a b (childExt P c (q2n r2 t1)) -> Meets a b (childExt P c (q2n r1 t2)) -> False.
+Proof.
+  intros r1 t1 r2 t2 Nr Nt M1 M2.
+  apply (before_asym a b _ _ M1 M2); apply ordXY_before.
+  - right. rewrite !isTop_q2n. auto.
+  - left. rewrite !isRight_q2n. auto.
+Qed.
